@@ -193,3 +193,18 @@ func c01colsPhase(r *Run, rng *Rng, n int) {
 		c01mcols(r, c01colsWire(c01genCols(rng)))
 	}
 }
+
+// the column clause of Inv (SaveCols.Wf): ranges inside the sheet, pairwise non-overlapping, any order
+func c01colsWf(cs []c01col) bool {
+	for a, c := range cs {
+		if c.min < 1 || c.min > c.max {
+			return false
+		}
+		for _, d := range cs[a+1:] {
+			if !(c.max < d.min || d.max < c.min) {
+				return false
+			}
+		}
+	}
+	return true
+}
